@@ -196,7 +196,7 @@ def rand_history(rng: random.Random) -> T.List[dict]:
     return [rand_cmd(rng, i == 0) for i in range(n)]
 
 
-def ed(proj, name, spec): return {'op': 'edit', 'proj': proj, 'name': name, 'spec': spec}
+def ed(proj, name, spec, **kw): return dict({'op': 'edit', 'proj': proj, 'name': name, 'spec': spec}, **kw)
 def su(*d): return {'op': 'setup', 'D': [list(x) for x in d]}
 def rc(*d): return {'op': 'reconfigure', 'D': [list(x) for x in d]}
 def cf(*d, U=()): return {'op': 'configure', 'D': [list(x) for x in d], 'U': list(U)}
@@ -465,6 +465,40 @@ def templates() -> T.List[T.Tuple[str, str, str, T.List[dict]]]:
             out.append(('regenerate', kind, proj, [su((k, v)), cf((k, w)), CORRUPT, su((k, v)), rc(), WIPE]))
             out.append(('fail-late:reconfigure', kind, proj, [su((k, v)), rc(late, (k, w)), WIPE]))
             out.append(('fail-after-dump:reconfigure', kind, proj, [su((k, v)), ed(proj, name, None), rc(('boom_late', 'true')), WIPE]))
+    # -- boundary edits of an option file, for the top-level project and the subproject: the LAST option removed (file
+    #    stays: empty / comment only / blank / a no-op), all but one removed, the file deleted, re-created with the
+    #    same or other declarations, renamed meson.options <-> meson_options.txt; then reconfigure / configure / wipe
+    #    and probes (setting a removed option must be refused, it must not be listed)
+    def fileop(proj: str, state: T.Optional[str]) -> dict:
+        return {'op': 'file', 'proj': proj, 'state': state}
+
+    for proj in ('top', 'sub'):
+        names = list(INIT[proj])
+        pk, pn = key_of(proj, PLAIN[proj]['combo']), PLAIN[proj]['combo']
+        psp = INIT[proj][pn]
+        v = next(x for x in valid_values(psp) if x != cl(psp['d']))
+        other = key_of('sub' if proj == 'top' else 'top', PLAIN['sub' if proj == 'top' else 'top']['string'])
+
+        def clear(keep: T.Sequence[str] = (), style: str = 'empty') -> T.List[dict]:
+            ops = [ed(proj, n, None) for n in names if n not in keep]
+            ops[-1] = dict(ops[-1], style=style)
+            return ops
+        for style in RUN.EMPTY_STYLES:
+            out.append(('boundary:last-option-removed:' + style, 'file', proj, [su()] + clear(style=style) + [rc(), cf((pk, v)), rc()]))
+        out.append(('boundary:last-option-removed:then-configure', 'file', proj, [su()] + clear() + [cf((other, 'u1')), cf((pk, v)), rc()]))
+        out.append(('boundary:last-option-removed:then-wipe', 'file', proj, [su()] + clear(style='comment') + [WIPE, cf((pk, v))]))
+        out.append(('boundary:last-option-removed:re-added', 'file', proj,
+                    [su()] + clear() + [rc(), ed(proj, pn, alt_default(psp)), rc(), cf((pk, v)), WIPE]))
+        out.append(('boundary:all-but-one-removed', 'file', proj, [su()] + clear(keep=[pn]) + [rc(), cf((pk, v)), ed(proj, pn, None), rc(), cf((pk, v))]))
+        out.append(('boundary:file-deleted', 'file', proj, [su(), fileop(proj, None), rc(), cf((pk, v)), rc()]))
+        out.append(('boundary:file-deleted:then-wipe', 'file', proj, [su(), fileop(proj, None), WIPE, cf((pk, v))]))
+        out.append(('boundary:file-deleted:then-configure', 'file', proj, [su(), fileop(proj, None), cf((other, 'u1')), rc()]))
+        out.append(('boundary:file-recreated:same', 'file', proj, [su(), fileop(proj, None), rc(), fileop(proj, 'options'), rc(), cf((pk, v)), WIPE]))
+        out.append(('boundary:file-recreated:different', 'file', proj,
+                    [su(), fileop(proj, None), rc(), ed(proj, pn, alt_default(psp)), fileop(proj, 'txt'), rc(), cf((pk, v)), WIPE]))
+        out.append(('boundary:file-renamed', 'file', proj, [su(), fileop(proj, 'txt'), rc(), cf((pk, v)), fileop(proj, 'options'), rc(), WIPE]))
+        out.append(('boundary:file-renamed:then-configure', 'file', proj, [su(), fileop(proj, 'txt'), cf((other, 'u1')), rc()]))
+        out.append(('boundary:setup-without-file', 'file', proj, [fileop(proj, None), su(), fileop(proj, 'options'), rc(), cf((pk, v))]))
     # -- per-subproject override of a builtin option
     out.append(('builtin-override', 'builtin', 'sub', [su(), cf(('sub:warning_level', '3')), cf(('warning_level', '0')), cf(U=['sub:warning_level']), rc()]))
     out.append(('builtin-override', 'builtin', 'sub', [su(('sub:warning_level', '3')), rc(('warning_level', '3')), cf(('warning_level', '0')), WIPE]))
@@ -542,6 +576,8 @@ def e_cmd(c: dict) -> str:
         return 'cf;' + ','.join(f'{e_key(k)}=' + ('-' if v is None else e_val(v)) for k, v in args.items())
     if op == 'corrupt':
         return 'co'
+    if op == 'file':
+        return 'fs;%s;%s' % ('1' if c['proj'] == 'sub' else '0', {None: '-', 'options': '0', 'txt': '1'}[c['state']])
     if op == 'edit':
         p = '1' if c['proj'] == 'sub' else '0'
         if c['spec'] is None:
@@ -698,14 +734,20 @@ def oracle(hist: T.List[dict], obs: T.List[dict], reach: T.Optional[T.Set[str]] 
     if reach is None:
         reach = set()
     st = REF.State()
-    files = {p: dict(d) for p, d in INIT.items()}
+    decl = {p: dict(d) for p, d in INIT.items()}                 # declarations (kept while the file is absent)
+    fstate: T.Dict[str, T.Optional[str]] = {'top': 'options', 'sub': 'options'}
+    read_fstate = dict(fstate)                                   # file names at the last (re)configuration that read them
+    files = {p: dict(d) for p, d in INIT.items()}               # what the option files declare now
     prev: T.Optional[dict] = None
     for i, (cmd, ob) in enumerate(zip(hist, obs)):
-        if cmd['op'] == 'edit':
-            if cmd['spec'] is None:
-                files[cmd['proj']].pop(cmd['name'], None)
+        if cmd['op'] in ('edit', 'file'):
+            if cmd['op'] == 'file':
+                fstate[cmd['proj']] = cmd['state']
+            elif cmd['spec'] is None:
+                decl[cmd['proj']].pop(cmd['name'], None)
             else:
-                files[cmd['proj']][cmd['name']] = cmd['spec']
+                decl[cmd['proj']][cmd['name']] = cmd['spec']
+            files = {p: (dict(decl[p]) if fstate[p] is not None else {}) for p in ('top', 'sub')}
             if persisted(ob) != persisted(prev):
                 return {'step': i, 'key': 'edit-changed-build-directory', 'what': 'editing the option file changed the build directory'}
             prev = ob
@@ -725,9 +767,17 @@ def oracle(hist: T.List[dict], obs: T.List[dict], reach: T.Optional[T.Set[str]] 
                 if isinstance(c, REF.State) and matches(c, cmd, ob) is None:
                     chosen, okay = c, True
                     break
+        if not okay and ob['rc'] == 'ok' and ob['core'] and not ob['core'].get('corrupt') and \
+                (cmd['op'] == 'configure' or (cmd['op'] == 'setup' and st.configured)) and \
+                fstate['sub'] != read_fstate['sub']:
+            return {'step': i, 'key': 'mconf-reads-top-level-option-file-for-subproject',
+                    'what': 'after the option file of a subproject was deleted or renamed, `meson configure` reads the '
+                            'TOP-LEVEL option file for it and registers the top-level options as sub:* (recorded under C06)'}
         if not okay:
             key, what = classify(st, files, cmd, ob, prev, cands)
             return {'step': i, 'key': key, 'what': what}
+        if chosen is not None and cmd['op'] in ('reconfigure', 'wipe') or (chosen is not None and cmd['op'] == 'setup' and not st.configured):
+            read_fstate = dict(fstate)
         if chosen is not None:
             for k in chosen.parent_replaced - st.parent_replaced:
                 reach.add('parent-replaced:' + ('overridden-child' if k in chosen.override else 'yielding-child'))
@@ -851,18 +901,23 @@ def run(ctx: Ctx) -> None:
     # dependency-directed templates: quick = every inheriting-pair template + a seeded sample of the others;
     # deep = all of them, plain and padded with random commands
     tpl = templates()
-    if not ctx.deep:
+    if not ctx.deep or cap:
         must = [t for t in tpl if t[0].startswith('yield:')]
         # late / after-dump failures of every command kind (incl. --wipe and the regeneration after a corrupt
         # coredata.dat): two option kinds per clause, drawn by the seed
         late_clauses = sorted({t[0] for t in tpl if t[0].startswith('fail-') or 'regenerate' in t[0]})
         for cl_ in late_clauses:
             must += ctx.rng.sample([t for t in tpl if t[0] == cl_], 2)
+        # boundary edits of the option files, for both projects: every kind of boundary, the style of an emptied
+        # file and the follow-up drawn by the seed
+        for proj_ in ('top', 'sub'):
+            b = [t for t in tpl if t[0].startswith('boundary:') and t[2] == proj_]
+            kinds_ = ['boundary:last-option-removed:', 'boundary:last-option-removed:then', 'boundary:all-but-one',
+                      'boundary:file-deleted', 'boundary:file-recreated', 'boundary:file-renamed', 'boundary:setup-without']
+            for kd in kinds_:
+                must.append(ctx.rng.choice([t for t in b if t[0].startswith(kd)]))
         rest = [t for t in tpl if t not in must]
-        tpl = must + ctx.rng.sample(rest, 20)
-    elif cap:
-        must = [t for t in tpl if t[0].startswith('yield:')]
-        tpl = must + ctx.rng.sample([t for t in tpl if not t[0].startswith('yield:')], min(cap, 60))
+        tpl = must + ctx.rng.sample(rest, 12)
     run_batch(ctx, [t[3] for t in tpl], 'templates', [f'{t[0]}:{t[1]}:{t[2]}' for t in tpl])
     if ctx.deep and not cap:
         run_batch(ctx, [pad(ctx.rng, t[3]) for t in tpl], 'templates-padded', [f'{t[0]}:{t[1]}:{t[2]}' for t in tpl])
